@@ -102,3 +102,18 @@ VARIANTS += [
     V("silent-damv-orientation-ge", I, "    if bin_height > bin_width:",
       "    if bin_height >= bin_width:", "silent", ""),
 ]
+
+VARIANTS += [
+    V("constructor-rows-not-copied", I,
+      "            obj[i, :] = matrix[i]\n", "            pass\n", "fire",
+      "D3.3"),
+    V("constructor-damv-dimensions-swapped", I,
+      "            bin_width, bin_height, obj), \"lower_bound_bins_damv\",",
+      "            bin_height, bin_width, obj), \"lower_bound_bins_damv\",",
+      "fire", "D3.3"),
+    V("constructor-width-stored-as-height", I,
+      "        obj.bin_height = bin_height", "        obj.bin_height = "
+      "bin_width", "fire", "D3.3"),
+    V("constructor-items-not-counted", I,
+      "            n_items += repetitions\n", "", "fire", "D3.3"),
+]
